@@ -449,7 +449,7 @@ class SymEval:
                 return None
             if n.attr in ("pi", "e"):
                 return {"pi": float(np.pi), "e": float(np.e)}[n.attr]  # numeric constants (symbolic callers bind their own atom)
-            if n.attr in ("float32", "float64", "int32", "int64", "float16", "uint8", "bool_"):
+            if n.attr in ("float32", "float64", "int32", "int64", "float16", "uint8", "bool_", "str_", "nan", "inf"):
                 return getattr(np, n.attr)  # dtype objects (only ever passed on as dtype arguments)
             raise NotSymbolic(f"numpy attribute {n.attr} used as a value")
         v = self.eval(n.value)
@@ -501,7 +501,14 @@ class SymEval:
         return v
 
     def e_Call(self, n):
-        kwargs = {k.arg: self.eval(k.value) for k in n.keywords if k.arg is not None}
+        # a subclass that has already evaluated the arguments (they may have side effects: `next(lit)`, `d.pop(k)`)
+        # hands them over instead of having them evaluated a second time
+        pre = self.__dict__.pop("_preargs", None)
+        if pre is not None and pre[0] is n:
+            pre_args, kwargs = list(pre[1]), dict(pre[2])
+        else:
+            pre_args = None
+            kwargs = {k.arg: self.eval(k.value) for k in n.keywords if k.arg is not None}
         if any(k.arg is None for k in n.keywords):
             raise NotSymbolic("**kwargs")
         f = n.func
@@ -520,7 +527,7 @@ class SymEval:
             fn = _NP_FUNCS.get(f.attr)
             if fn is None:
                 raise NotSymbolic(f"numpy function {f.attr}")
-            args = [self.eval(a) for a in n.args]
+            args = pre_args if pre_args is not None else [self.eval(a) for a in n.args]
             kwargs.pop("dtype", None)
             if f.attr in ("array", "asarray") and len(args) > 1:
                 args = args[:1]
